@@ -36,6 +36,14 @@ def books(ctx):
                 continue
     finally:
         shutil.rmtree(tmp, ignore_errors=True)
+    # the same workbooks with a pump tab whose title has the word 'pump' in the middle (the loader takes every tab with 'pump' in its title)
+    for (label, wb), style in zip(list(out)[:ctx.n(3, 12)], ['Pump 1', 'Booster pump (spare)', 'pump no 2', 'Pump 1']):
+        try:
+            v = X.retitled(wb, style)
+        except Exception:   # noqa
+            v = None
+        if v is not None:
+            out.append((f'{label}, a pump tab retitled {style!r}', v))
     return out
 
 
